@@ -2,7 +2,7 @@
    Only ExtrOcamlBasic is used: bool, option, unit, list, prod, sumbool, sumor map to the OCaml
    types and andb / orb are inlined; nat, positive, Z, Q, ascii, string stay the extracted
    inductive types.  No Extract Constant / Extract Inductive of our own. *)
-From GX Require Import Base Expr Parse Lex Topo Ode Target Sem Codegen Load Valid Run Schemes Cback Sympytools Save MirrorValid MirrorRL.
+From GX Require Import Base Expr Parse Lex Line Topo Ode Target Sem Codegen Load Valid Run Schemes Cback Sympytools Save MirrorValid MirrorRL.
 Require Extraction.
 Require Import ExtrOcamlBasic.
 Extraction Language OCaml.
@@ -19,4 +19,4 @@ Extraction "../build/gx.ml"
   to_ode minus ceval c_safe is_int
   rhs_matrix jacobian default_tries mentions_assigned base
   save_items find_decl wf_gen gen_rl all_names resv
-  parse_expr print_expr lex parse_string render_expr.
+  parse_expr print_expr lex parse_string render_expr parse_line write_line.
